@@ -15,6 +15,7 @@ CFG = {'C07': 'g2,ca', 'C15': 'g2,g2w,ca', 'C17': 'gd,ca,g2', 'C18': 'ts'}
 
 def main():
     only = None
+    names = None
     scale = '0.5'
     out = os.environ.get('BGSENS_OUT', '/verif/selftest/results/sensitivity.json')
     a = sys.argv[1:]
@@ -25,11 +26,15 @@ def main():
             scale = a[i + 1]
         if x == '--out':
             out = a[i + 1]
+        if x == '--names':
+            names = a[i + 1].split(',')
     index = json.load(open(os.path.join(VERIF, 'mutants', 'index.json')))
     results = []
     t0 = time.time()
     for m in index:
         if only and only not in m['name']:
+            continue
+        if names and not any(m['name'].startswith(x) for x in names):
             continue
         tmp = '/dev/shm/sens.%d.json' % os.getpid()
         per = []
